@@ -472,6 +472,10 @@ func runMapProgram(e *mapEnv, nOps, mode, valProf, opProf int) {
 			if err := atree.VerifyMap(e.m, e.addr, e.ty, func(a, b atree.TypeInfo) bool { return a == b }, e.hip, true); err != nil {
 				// VerifyMap recomputes digests with the map's builder: valid for every digest mode
 				e.violation("C05", "VerifyMap: "+err.Error())
+				if e.st.Stream == "mapcollide" {
+					// C12: "keeps dictionary semantics and a valid structure" under adversarial digests
+					e.violation("C12", "VerifyMap: "+err.Error())
+				}
 			}
 		}
 	}
